@@ -116,7 +116,7 @@ let () = iter_lines (fun line ->
         kv "while" n_while; kv "endwhile" n_endwhile; kv "for" n_for; kv "endfor" n_endfor;
         kv "close_if" (closers CkIf); kv "close_while" (closers CkWhile); kv "close_for" (closers CkFor);
         kv "function" n_function; kv "endfunction" n_endfunction; kv "return" n_return; kv "close_fn" fn_closers;
-        "wf=" ^ b2s tables_wf])
+        "wf=" ^ b2s (tables_wf && fn_tables_ok)])
   | ["P"; init; ptext] ->
       (try
         let p = p_prog (String.split_on_char ' ' ptext) in
@@ -129,6 +129,7 @@ let () = iter_lines (fun line ->
           | FDone ((w, _), _) -> "OK|" ^ show_world w
           | FStopped (l, r, _) -> Printf.sprintf "STOP %d %s" (int_of_nat l) (kind_of_cres r)
           | FOutOfFuel -> "FUEL") in
-        Printf.printf "%s\t%s\t%s\t%s\t%s\n" (field_of_list text) (b2s (wf_prog p)) (b2s (known_f6 p)) spec model
+        Printf.printf "%s\t%s\t%s\t%s\t%s\n" (field_of_list text) (b2s (wf_prog p))
+          (b2s (known_f6 p) ^ (if ordered_prog p then "O" else "")) spec model
       with Failure m -> print_endline ("BADCASE " ^ m))
   | _ -> print_endline "BADLINE")
